@@ -277,6 +277,18 @@ pub fn gen_rect(rng: &mut Rng, lw: i64, lh: i64, mode: Mode, max_visible: u64) -
 }
 
 fn gen_rect_raw(rng: &mut Rng, lw: i64, lh: i64, mode: Mode) -> Rect {
+    if mode == Mode::Hostile && !crate::small() && rng.chance(1, 60) {
+        // billions of clipped points *above* (or left of) a few visible ones: the skip count
+        // itself is around 2^31 (signed / unsigned 32-bit arithmetic differs there)
+        let w = rng.range(30_000, 65_535);
+        let skip_rows = (rng.range(1 << 31, (1i64 << 32) - 1 - 40 * w) / w).max(1);
+        let vis_rows = rng.range(1, 6.min(lh));
+        let h = skip_rows + vis_rows + rng.range(0, 3);
+        if w * h < (1i64 << 32) {
+            let x = -rng.range(0, (w - 1).min(40_000));
+            return Rect { x: x as i32, y: -(skip_rows as i32), w: w as u32, h: h as u32 };
+        }
+    }
     if mode == Mode::InBounds {
         let x = inb_coord(rng, lw) as i64;
         let y = inb_coord(rng, lh) as i64;
@@ -747,7 +759,8 @@ pub fn gen_program(rng: &mut Rng, cfg: &DispCfg, o: &ProgOpts) -> Vec<Op> {
             ori = Ori(rng.below(8) as u8);
             prog.push(Op::SetOrientation(ori));
         } else if r == 1 && o.allow_misc {
-            prog.push(match rng.below(5) {
+            prog.push(match rng.below(6) {
+                5 => Op::DcsBorrow,
                 0 => Op::ScrollRegion(rng.range(0, 400) as u16, rng.range(0, 400) as u16),
                 1 => Op::ScrollOffset(rng.next() as u16),
                 2 => Op::Tearing(rng.below(3) as u8),
